@@ -99,8 +99,11 @@ class C03(Prop):
                         rew.append(["last", None, rng.choice([0, 100 * MS, 1000 * MS, 3000 * MS, 5000 * MS])])
                     else:
                         rew.append(["id", rng.randrange(n), rng.choice([0, 100 * MS, 1000 * MS, 3000 * MS, 5000 * MS])])
+            # the bucket id had an earlier life on this storage object: written to, READ, deleted - then created again
+            recreate = (not repl and not rew and not reopen and rng.random() < 0.25)
             for be in storelib.BACKENDS:
-                out.append(("random-window", {"backend": be, "events": evs, "reads": reads, "replace": repl, "reopen": reopen, "rewrites": rew}))
+                out.append(("random-window", {"backend": be, "events": evs, "reads": reads, "replace": repl, "reopen": reopen, "rewrites": rew,
+                                              "recreate": recreate}))
         # buckets and windows at the very start of the time range (the epoch itself is instant 0)
         for _ in range(ctx.pick(40, 600)):
             evs = [[None, rng.choice([0, 0, MS, 100 * MS, 1000 * MS]), rng.choice([0, 0, 1, MS, 500 * MS]), rng.choice([LA, LB])]
@@ -152,6 +155,13 @@ class C03(Prop):
         store = storelib.Store(case["backend"])
         try:
             ds = store.ds
+            if case.get("recreate"):
+                ds.create_bucket("w", "t", "c", "h", created=us_to_dt(T0))
+                ds["w"].insert([mk_event([None, T0, 1000, LA])])
+                ds["w"].get(-1)
+                ds["w"].get(1, us_to_dt(T0 - 1000), us_to_dt(T0 + 5000))
+                ds["w"].get_eventcount(us_to_dt(T0 - 1000), us_to_dt(T0 + 5000))
+                ds.delete_bucket("w")
             ds.create_bucket("w", "t", "c", "h", created=us_to_dt(T0))
             b = ds["w"]
             if case.get("reopen") and len(case["events"]) >= 2:
@@ -205,8 +215,12 @@ class C03(Prop):
     def model_lines(self, case):
         pre = f"store {case['backend']} "
         m = {"type": "t", "client": "c", "hostname": "h", "created_us": T0}
-        L = ["store reset", pre + f"create {hx('w')} {storelib.p_meta(m)}",
-             pre + f"bulk {hx('w')} {p_list(case['events'], p_ev)}"]
+        L = ["store reset"]
+        if case.get("recreate"):
+            L += [pre + f"create {hx('w')} {storelib.p_meta(m)}", pre + f"bulk {hx('w')} {p_list([[None, T0, 1000, LA]], p_ev)}",
+                  pre + f"delbucket {hx('w')}"]
+        L += [pre + f"create {hx('w')} {storelib.p_meta(m)}",
+              pre + f"bulk {hx('w')} {p_list(case['events'], p_ev)}"]
         first = {"memory": 0, "sqlite": 1, "peewee": 1}[case["backend"]]
         for idx, ev in case.get("replace", []):
             L.append(pre + f"replace {hx('w')} {first + idx} {p_ev(ev)}")
@@ -229,7 +243,7 @@ class C03(Prop):
         return L
 
     def model_out(self, case, answers):
-        k = 3 + len(case.get("replace", []))
+        k = 3 + len(case.get("replace", [])) + (3 if case.get("recreate") else 0)
         stored = storelib.parse_dump(answers[k])["w"]["events"]
         outs = []
         for i in range(len(case["reads"])):
